@@ -166,8 +166,6 @@ def check_index(w: World, slot_idx: int, probe_dids=(), probe_data=()):
             d = mt.rule(obj)
         except TypeError:
             continue
-        if not obj and obj is not None:
-            continue
         exp = by_did.get(d, [])
         got = tree.find_all(obj)
         if not same_set(got, exp):
